@@ -376,7 +376,7 @@ fn affine_family(ctx: &mut Ctx, list: &[Input]) {
     fn gcd(a: usize, b: usize) -> usize {
         if b == 0 { a } else { gcd(b, a % b) }
     }
-    let per = ctx.tier.pick(12usize, 400usize);
+    let per = ctx.tier.pick(12usize, 120usize);
     for inp in list.iter().filter(|i| i.corpus) {
         let n = inp.s.n;
         let coprime: Vec<usize> = (2..n).filter(|&a| gcd(a, n) == 1).collect();
